@@ -1010,6 +1010,7 @@ var builtinSpecFuncs = map[string]bsig{
 	"sbyte":      {[]string{"Str", "Int"}, "Int"},
 	"runeStr":    {[]string{"Int"}, "Str"},
 	"byteStr":    {[]string{"Int"}, "Str"},
+	"itoa":       {[]string{"Int"}, "Str"},
 	"runeAt":     {[]string{"Str", "Int"}, "Int"},
 	"sizeAt":     {[]string{"Str", "Int"}, "Int"},
 	"hasSuffix":  {[]string{"Str", "Str"}, "Bool"},
